@@ -6,8 +6,8 @@
    equal to / simulated by Path.get_extracted_path, Path.create_file, Pool.pool_write, Path.create_all +
    Pool.append_blocks_pool (= extract_linear_pool) and CliExtract.extract_listed_loop, and carries the confinement
    theorem of C16 over to the translated `extract`.  The trusted primitive table is in tools/src2v3_cli.py. *)
-From MLA Require Import Base Stream Blocks Reader LinearProofs Path PathProofs PathLinks Pool PoolProofs Cli CliProofs
-  CliExtract CliExtractProofs SrcTie3Reader SrcTie3Linear.
+From MLA Require Import Base Stream Blocks Reader LinearProofs Path PathDir PathProofs PathLinks PathDirProofs Pool PoolProofs Cli CliProofs
+  CliExtract CliExtractProofs CliExtractOut SrcTie3Reader SrcTie3Linear SrcTie3CliCopy.
 From MLAGen Require Src3d Src3l Src3x.
 From Coq Require Import Permutation ZifyBool ZifyNat ZifyN.
 Open Scope N_scope.
@@ -241,29 +241,26 @@ Section Tie.
 
   (* ---------- extract, whole-archive form ---------- *)
   (* For every reader state over every stream, output directory, file system, cut and fuel: the translated
-     `extract` (matcher = Anything) leaves the file system of Pool.extract_linear_pool run on the pieces that
-     the walk delivers to the writers registered by the pre-pass (export = the names create_file accepted),
-     and succeeds iff that run and the walk did. *)
+     `extract` (matcher = Anything) IS CliExtract.extract_linear_body — the body of cmd_extract_linear_pool:
+     same file system, and it succeeds iff the model says so.  (Until the work package fixcli the model walked
+     the archive with ALL sorted names as `export`; the source passes the names create_file accepted, which is
+     what extract_linear_body now does: Cli.accepted_names.) *)
   Theorem extract_linear_sim (r : rstate S) out verbose f :
-    let names := sort_names (list_files S r) in
-    let ex := snd (fst (create_all out names f)) in
-    let dl := m_linear_d lfuel r (map fst ex) in
-    let m := extract_linear_pool RAppend CAP cut out names (fst dl) f in
     let g := g_extract (rep_r S r) out (Src3x.Anything Pat) verbose f in
-    fst g = fst m /\ is_ok (snd g) = snd m && is_ok (snd dl).
+    (fst g, is_ok (snd g)) = extract_linear_body FNMAX TS TC TA TE S CAP cut lfuel r out f.
   Proof.
-    cbv zeta. unfold Src3x.extract_body. rewrite list_files_sim. cbv iota beta.
+    cbv zeta. unfold Src3x.extract_body, extract_linear_body, accepted_names. rewrite list_files_sim. cbv iota beta.
     set (names := sort_names (list_files S r)).
     pose proof (prepass_sim out verbose names [] f (sorted_names_nodup S r) (fun n _ H => H)) as Hpre.
     unfold extract_linear_pool. destruct (create_all out names f) as [[f1 ex] [|]]; cbn [fst snd].
     - rewrite Hpre. cbn [app]. rewrite fw_keys_fw_of, linear_extract_d_sim. cbv beta iota zeta.
       rewrite run_writers_sim, ex_of_fw_of. cbn [Src3l.ex_log].
       destruct (append_blocks_pool RAppend CAP cut ex (fst (m_linear_d lfuel r (map fst ex))) f1 []) as [[f2 pl2] [|]];
-        cbn [status fst snd andb is_ok]; split; reflexivity.
-    - destruct Hpre as [ex' Hpre]. rewrite Hpre. split; reflexivity.
+        cbn [status fst snd andb is_ok]; reflexivity.
+    - destruct Hpre as [ex' Hpre]. rewrite Hpre. reflexivity.
   Qed.
 
-  (* when the pre-pass skips no name, that is CliExtract.cmd_extract_linear_pool's body literally *)
+  (* the special case in which the pre-pass skips no name: `export` = all the sorted names *)
   Corollary extract_linear_sim_none_skipped (r : rstate S) out verbose f :
     let names := sort_names (list_files S r) in
     map fst (snd (fst (create_all out names f))) = names ->
@@ -271,51 +268,65 @@ Section Tie.
     let m := extract_linear_pool RAppend CAP cut out names (fst dl) f in
     let g := g_extract (rep_r S r) out (Src3x.Anything Pat) verbose f in
     fst g = fst m /\ is_ok (snd g) = snd m && is_ok (snd dl).
-  Proof. cbv zeta. intros H. pose proof (extract_linear_sim r out verbose f) as Hs. cbv zeta in Hs. rewrite H in Hs. exact Hs. Qed.
+  Proof.
+    cbv zeta. intros H. pose proof (extract_linear_sim r out verbose f) as Hs. cbv zeta in Hs.
+    unfold extract_linear_body, accepted_names in Hs. rewrite H in Hs.
+    destruct (extract_linear_pool RAppend CAP cut out _ _ f) as [f' b]. cbn [fst snd].
+    injection Hs as -> ->. split; reflexivity.
+  Qed.
 
   (* ---------- extract, per-name form ---------- *)
   Section PerName.
     Variables zf fuel : nat.
-    (* io::copy out of the ArchiveFile: std's copy loop over BlocksToFileReader::read, which
-       SrcTie3Reader.bfr_read_sim ties to Reader.bread: same bytes, same ending; same reader afterwards when
-       it ends well *)
-    Hypothesis Hcopy : forall bs,
-      let '(bs', d, x) := io_copy FNMAX TS TC TA TE S zf fuel bs [] in
-      exists g', io_copy_file (rep S bs) = (g', d, x) /\ (is_ok x = true -> g' = rep S bs').
-    (* the model goes on to the next name when get_file PANICS (a panic of a layer below); the source
-       unwinds.  No stream of the model panics in get_file on its own: excluded by a premise. *)
-    Hypothesis Hnopanic : forall r n, is_crash (snd (get_file FNMAX TS TC TA TE S r n)) = false.
+    (* io::copy out of the ArchiveFile = std's copy loop over the TRANSLATED BlocksToFileReader::read
+       (SrcTie3CliCopy.g_copy; its inner fuel is computed from the reader, no premise) *)
+    Notation g_copy := (g_copy S FNMAX TS TC TA TE site_index zf fuel).
+    Notation g_for2c := (Src3x.extract_for2 S FNMAX TS TC TA TE site_index Pat glob g_copy).
+    Notation g_extractc := (Src3x.extract_body S FNMAX TS TC TA TE site_index site_unwrap Pat glob sort_names cut lfuel g_copy).
+    Notation m_loop := (extract_listed_loop FNMAX TS TC TA TE S zf fuel).
 
+    (* THE REMAINING PREMISE is CliExtract.copies_fuelled: no copy the model makes along the loop ends with
+       "out of fuel" (computable; true of every archive made by `create` when fuel exceeds the longest file:
+       CliExtractProofs.copies_fuelled_created). *)
+    Notation copies_fuelled := (copies_fuelled FNMAX TS TC TA TE S zf fuel).
+
+    (* No premise on get_file (a panic below it ends both sides: the model propagates it since fixcli), none on
+       the copy beyond copies_fuelled. *)
     Theorem extract_selected_sim m verbose out : forall names (r : rstate S) f,
-      let g := g_for2 out m verbose (rep_r S r) f names in
-      let md := extract_listed_loop FNMAX TS TC TA TE S zf fuel r (filter (Src3x.match_file_name Pat glob m) names) out f in
-      snd (fst g) = fst md /\ is_ok (snd g) = snd md.
+      let sel := filter (Src3x.match_file_name Pat glob m) names in
+      copies_fuelled r sel out f = true ->
+      let g := g_for2c out m verbose (rep_r S r) f names in
+      (snd (fst g), is_ok (snd g)) = m_loop r sel out f.
     Proof.
-      induction names as [|n names IH]; intros r f; cbn [Src3x.extract_for2 filter]; [split; reflexivity|].
+      induction names as [|n names IH]; intros r f; cbn [Src3x.extract_for2 filter]; [reflexivity|].
       destruct (Src3x.match_file_name Pat glob m n) eqn:Em; cbn [negb]; [|apply IH].
-      cbn [extract_listed_loop]. rewrite get_file_sim. pose proof (Hnopanic r n) as Hp.
-      destruct (get_file FNMAX TS TC TA TE S r n) as [r1 [[[bs sz]|]|e|c]]; cbn [rep_file]; [| apply IH | apply IH | discriminate].
+      cbv zeta. cbn [extract_listed_loop CliExtract.copies_fuelled]. rewrite get_file_sim.
+      destruct (get_file FNMAX TS TC TA TE S r n) as [r1 [[[bs sz]|]|e|c]]; cbn [rep_file]; [| apply IH | apply IH | reflexivity].
       rewrite create_file_sim. destruct (Path.create_file out n f) as [f1 [lit cp| |]]; cbn [rep_outcome].
-      - pose proof (Hcopy bs) as Hc. destruct (io_copy FNMAX TS TC TA TE S zf fuel bs []) as [[bs' d] x].
-        destruct Hc as (g' & Hc & Hg). rewrite Hc. destruct x as [u|e|c]; cbn [fst snd is_ok]; [|split; reflexivity|split; reflexivity].
-        rewrite (Hg eq_refl). apply (IH (after_copy r1 bs')).
+      - intros Hfu.
+        assert (Hne : snd (io_copy FNMAX TS TC TA TE S zf fuel bs []) <> Err EFuel).
+        { destruct (io_copy FNMAX TS TC TA TE S zf fuel bs []) as [[bs' d] [u|[]|c]]; cbn [snd]; discriminate. }
+        pose proof (g_copy_sim S FNMAX TS TC TA TE site_index zf fuel bs Hne) as Hc.
+        destruct (io_copy FNMAX TS TC TA TE S zf fuel bs []) as [[bs' d] x].
+        destruct Hc as (g' & Hc & Hsrc & Hg). rewrite Hc. destruct x as [u|e|c]; cbn [fst snd is_ok]; [|reflexivity|reflexivity].
+        rewrite (Hg eq_refl). apply (IH (after_copy r1 bs')). exact Hfu.
       - apply IH.
-      - split; reflexivity.
+      - reflexivity.
     Qed.
 
     Theorem extract_selected_body_sim (r : rstate S) m verbose out f :
       m <> Src3x.Anything Pat ->
-      let g := g_extract (rep_r S r) out m verbose f in
-      let md := extract_listed_loop FNMAX TS TC TA TE S zf fuel r
-                  (filter (Src3x.match_file_name Pat glob m) (sort_names (list_files S r))) out f in
-      fst g = fst md /\ is_ok (snd g) = snd md.
+      let sel := filter (Src3x.match_file_name Pat glob m) (sort_names (list_files S r)) in
+      copies_fuelled r sel out f = true ->
+      let g := g_extractc (rep_r S r) out m verbose f in
+      (fst g, is_ok (snd g)) = m_loop r sel out f.
     Proof.
-      intros Hm. cbv zeta. unfold Src3x.extract_body. rewrite list_files_sim. cbv iota beta.
+      intros Hm. cbv zeta. intros Hfu. unfold Src3x.extract_body. rewrite list_files_sim. cbv iota beta.
       destruct m as [fl|ps|]; [| |congruence].
-      - pose proof (extract_selected_sim (Src3x.Files Pat fl) verbose out (sort_names (list_files S r)) r f) as H. cbv zeta in H.
-        destruct (g_for2 out (Src3x.Files Pat fl) verbose (rep_r S r) f (sort_names (list_files S r))) as [[a b] [u|e|c]]; exact H.
-      - pose proof (extract_selected_sim (Src3x.GlobPatterns Pat ps) verbose out (sort_names (list_files S r)) r f) as H. cbv zeta in H.
-        destruct (g_for2 out (Src3x.GlobPatterns Pat ps) verbose (rep_r S r) f (sort_names (list_files S r))) as [[a b] [u|e|c]]; exact H.
+      - pose proof (extract_selected_sim (Src3x.Files Pat fl) verbose out (sort_names (list_files S r)) r f Hfu) as H. cbv zeta in H.
+        destruct (g_for2c out (Src3x.Files Pat fl) verbose (rep_r S r) f (sort_names (list_files S r))) as [[a b] [u|e|c]]; exact H.
+      - pose proof (extract_selected_sim (Src3x.GlobPatterns Pat ps) verbose out (sort_names (list_files S r)) r f Hfu) as H. cbv zeta in H.
+        destruct (g_for2c out (Src3x.GlobPatterns Pat ps) verbose (rep_r S r) f (sort_names (list_files S r))) as [[a b] [u|e|c]]; exact H.
     Qed.
   End PerName.
 
@@ -356,8 +367,97 @@ Section Tie.
     - unfold Src3x.extract_body; rewrite list_files_sim; cbv iota beta.
       pose proof (extract_for2_confined out (Src3x.GlobPatterns Pat ps) verbose (sort_names (list_files S r)) (rep_r S r) f) as H.
       destruct (g_for2 out (Src3x.GlobPatterns Pat ps) verbose (rep_r S r) f (sort_names (list_files S r))) as [[a' b'] [u|e|c]]; exact H.
-    - destruct (extract_linear_sim r out verbose f) as [Hf _]. rewrite Hf.
-      match goal with |- evolves out f (fst ?x) => destruct x as [f' b] eqn:E end.
-      exact (linear_through_pool_confined _ _ _ _ _ _ _ _ Hcut E).
+    - pose proof (extract_linear_sim r out verbose f) as Hf. cbv zeta in Hf.
+      change (fst (g_extract (rep_r S r) out (Src3x.Anything Pat) verbose f))
+        with (fst (fst (g_extract (rep_r S r) out (Src3x.Anything Pat) verbose f),
+                   is_ok (snd (g_extract (rep_r S r) out (Src3x.Anything Pat) verbose f)))).
+      rewrite Hf. apply extract_linear_body_confined. exact Hcut.
+  Qed.
+
+  (* ---------- the prologue of `extract`: create_dir of a missing output directory, canonicalize ---------- *)
+  (* translated (tools/src2v3_cli.py, Src3x.extract_from_open = statements 5-6 of `extract` with extract_body as
+     their continuation) = PathDir.extract_prologue, then the body with the canonical directory *)
+  Theorem extract_from_open_src mla o m verbose f :
+    Src3x.extract_from_open S FNMAX TS TC TA TE site_index site_unwrap Pat glob sort_names cut lfuel io_copy_file mla o m verbose f =
+    match extract_prologue f o with
+    | (f1, Some q) => g_extract mla q m verbose f1
+    | (f1, None) => (f1, Err EIo)
+    end.
+  Proof.
+    unfold Src3x.extract_from_open, extract_prologue, Src3x.sys_exists.
+    destruct (sys_ok o && exists_ f o); cbn [negb].
+    - destruct (canonicalize f o); reflexivity.
+    - destruct (sys_create_dir f o) as [f1|]; [|reflexivity]. destruct (canonicalize f1 o); reflexivity.
+  Qed.
+
+  (* BOTH forms behind the prologue, ANY `-o` argument: confined to the canonical output directory *)
+  Theorem C16_extract_from_open_confined_src (r : rstate S) o m verbose f out :
+    (forall d, concat (cut d) = d) ->
+    (snd (extract_prologue f o) = Some out \/ snd (extract_prologue f o) = None) ->
+    evolves out f (fst (Src3x.extract_from_open S FNMAX TS TC TA TE site_index site_unwrap Pat glob sort_names cut lfuel io_copy_file
+                          (rep_r S r) o m verbose f)).
+  Proof.
+    intros Hcut Hout. rewrite extract_from_open_src. pose proof (prologue_evolves out f o) as Hp.
+    destruct (extract_prologue f o) as [f1 [q|]]; cbn [fst snd] in *; [|exact Hp].
+    destruct Hout as [[= ->]|]; [|discriminate].
+    exact (evolves_trans _ _ _ _ Hp (C16_extract_confined_src r out m verbose f1 Hcut)).
   Qed.
 End Tie.
+
+(* ---------- from archive BYTES: the two command models of CliExtract.v ARE the translated `extract` ---------- *)
+Section FromBytes.
+  Variables CHUNK TAG BLOCK LIMIT FNMAX : N.
+  Variables TS TC TA TE : N.
+  Variable dh : bytes -> bytes -> bytes.
+  Variable kdf : bytes -> bytes.
+  Variables wdec wtag : bytes -> bytes -> bytes.
+  Variable ksf : bytes -> bytes -> N -> N -> N.
+  Variable tagf : bytes -> bytes -> N -> bytes -> bytes.
+  Variable dec : bytes -> bytes.
+  Variables site_index site_unwrap : N.
+  Variable Pat : Type.
+  Variable glob : Pat -> bytes -> bool.
+
+  Notation stack_of := (Archive.stack_of CHUNK TAG BLOCK ksf tagf dec).
+  Notation cli_open := (cli_open CHUNK TAG BLOCK LIMIT dh kdf wdec wtag ksf tagf dec).
+  Notation cmd_extract_linear_pool := (cmd_extract_linear_pool CHUNK TAG BLOCK LIMIT FNMAX TS TC TA TE dh kdf wdec wtag ksf tagf dec).
+  Notation cmd_extract_selected := (cmd_extract_selected CHUNK TAG BLOCK LIMIT FNMAX TS TC TA TE dh kdf wdec wtag ksf tagf dec).
+
+  (* whole-archive form: once open_mla_file has succeeded, the model command on the bytes IS the translated body of
+     `extract` run on the opened reader (any copy function: this form does not use it) — no premise *)
+  Theorem cmd_extract_linear_pool_src cut lfuel a privs p (r : rstate (stack_of a p)) io_copy_file out verbose f :
+    cli_open a privs = Ok (existT _ p r) ->
+    let g := Src3x.extract_body (stack_of a p) FNMAX TS TC TA TE site_index site_unwrap Pat glob sort_names cut lfuel io_copy_file
+               (rep_r _ r) out (Src3x.Anything Pat) verbose f in
+    cmd_extract_linear_pool (N.to_nat Src3x.FILE_WRITER_POOL_SIZE) cut lfuel a privs out f = (fst g, is_ok (snd g)).
+  Proof.
+    intros Ho. cbv zeta. unfold CliExtract.cmd_extract_linear_pool. rewrite Ho. symmetry.
+    exact (extract_linear_sim (stack_of a p) FNMAX TS TC TA TE site_index site_unwrap Pat glob cut lfuel io_copy_file r out verbose f).
+  Qed.
+
+  (* selected-files form (names or glob patterns): the same, under the one remaining premise copies_fuelled *)
+  Theorem cmd_extract_selected_src cut lfuel zf fuel a privs p r m out verbose f :
+    cli_open a privs = Ok (existT _ p r) -> m <> Src3x.Anything Pat ->
+    let sel := Src3x.match_file_name Pat glob m in
+    copies_fuelled FNMAX TS TC TA TE (stack_of a p) zf fuel r (filter sel (sort_names (list_files _ r))) out f = true ->
+    let g := Src3x.extract_body (stack_of a p) FNMAX TS TC TA TE site_index site_unwrap Pat glob sort_names cut lfuel
+               (g_copy (stack_of a p) FNMAX TS TC TA TE site_index zf fuel) (rep_r _ r) out m verbose f in
+    cmd_extract_selected sel zf fuel a privs out f = (fst g, is_ok (snd g)).
+  Proof.
+    intros Ho Hm. cbv zeta. intros Hfu. unfold CliExtract.cmd_extract_selected. rewrite Ho. symmetry.
+    exact (extract_selected_body_sim (stack_of a p) FNMAX TS TC TA TE site_index site_unwrap Pat glob cut lfuel zf fuel r m verbose out f Hm Hfu).
+  Qed.
+
+  (* the same from the `-o` ARGUMENT: open, prologue, body — the commands of CliExtractOut.v *)
+  Theorem cmd_extract_linear_pool_o_src cut lfuel a privs p (r : rstate (stack_of a p)) io_copy_file o verbose f :
+    cli_open a privs = Ok (existT _ p r) ->
+    let g := Src3x.extract_from_open (stack_of a p) FNMAX TS TC TA TE site_index site_unwrap Pat glob sort_names cut lfuel io_copy_file
+               (rep_r _ r) o (Src3x.Anything Pat) verbose f in
+    cmd_extract_linear_pool_o CHUNK TAG BLOCK LIMIT FNMAX TS TC TA TE dh kdf wdec wtag ksf tagf dec
+      (N.to_nat Src3x.FILE_WRITER_POOL_SIZE) cut lfuel a privs o f = (fst g, is_ok (snd g)).
+  Proof.
+    intros Ho. cbv zeta. unfold cmd_extract_linear_pool_o, behind_prologue. rewrite Ho, extract_from_open_src.
+    destruct (extract_prologue f o) as [f1 [q|]]; [|reflexivity]. symmetry.
+    exact (extract_linear_sim (stack_of a p) FNMAX TS TC TA TE site_index site_unwrap Pat glob cut lfuel io_copy_file r q verbose f1).
+  Qed.
+End FromBytes.
